@@ -96,7 +96,7 @@ def handle : List String → String
     | some n => let i := Elk.Inspect.showInt n; s!"ok {hexs i} {showBack (fun (v : Int) => toString v) (readInt i)}"
     | none => "bad-op"
   | ["lit", s] => match unhex s with
-    | some src => match readIntLit src with
+    | some src => match readInt src with   -- a literal, or a unary minus applied to one (constant-folded by compiler/resolve.go)
       | some v => s!"ok {v}"
       | none => "err"
     | none => "bad-op"
@@ -113,7 +113,7 @@ def handle : List String → String
       | "chr" => (parseNat? it).map fun c => let (i, b) := rtChr c; s!"{hexs i}:{showBack toString b}"
       | "int" => (parseInt? it).map fun n =>
           let i := Elk.Inspect.showInt n; s!"{hexs i}:{showBack (fun (v : Int) => toString v) (readInt i)}"
-      | "lit" => (unhex it).map fun src => showBack (fun (v : Int) => toString v) (readIntLit src)
+      | "lit" => (unhex it).map fun src => showBack (fun (v : Int) => toString v) (readInt src)
       | _ => none
     match optAll ((items.splitOn ",").map one) with
     | some rs => "ok " ++ joinWith "," rs
